@@ -196,6 +196,45 @@ where
 	}
 }
 
+/// `Buffered::get` of SMA (its window of inputs) and TRIMA (the window of the inner average's outputs): index `i` is the
+/// `i`-th newest element, anything at or beyond the length is `None` — also for indices that do not fit PeriodType
+fn buffered_check(out: &mut Out, len: PeriodType, xs: &[V]) {
+	let r = guard(|| {
+		let mut sma = SMA::new(len, &xs[0]).ok().unwrap();
+		let mut trima = TRIMA::new(len, &xs[0]).ok().unwrap();
+		let mut inner = SMA::new(len, &xs[0]).ok().unwrap();
+		let mut ins: Vec<V> = vec![xs[0]; len as usize];
+		let mut inner_outs: Vec<V> = vec![xs[0]; len as usize];
+		for x in xs {
+			sma.next(x);
+			trima.next(x);
+			ins.push(*x);
+			inner_outs.push(inner.next(x));
+		}
+		let n = len as usize;
+		let mut ok = true;
+		let mut ok_t = true;
+		for i in 0..n {
+			ok &= Buffered::get(&sma, i).map(|v| v.to_bits()) == Some(ins[ins.len() - 1 - i].to_bits());
+			ok_t &= Buffered::get(&trima, i).map(|v| v.to_bits()) == Some(inner_outs[inner_outs.len() - 1 - i].to_bits());
+		}
+		let big = [n, n + 1, 254, 255, 256, 257, 256 + n.saturating_sub(1), 300, 511, 512, 65535, 65536, 65536 + 3, 1 << 32, usize::MAX];
+		let mut none = true;
+		for &i in big.iter().filter(|&&i| i >= n) {
+			none &= Buffered::get(&sma, i).is_none() && Buffered::get(&trima, i).is_none();
+		}
+		(ok, ok_t, none)
+	});
+	match r {
+		Some((ok, ok_t, none)) => {
+			flag(out, "sma", "buffered_get", ok, "SMA::get(i) is not the i-th newest input".into());
+			flag(out, "trima", "buffered_get", ok_t, "TRIMA::get(i) is not the i-th newest inner average".into());
+			flag(out, "sma", "buffered_get_out_of_range", none, "get(index >= length) returned Some".into());
+		}
+		None => flag(out, "sma", "buffered_get", false, "panicked".into()),
+	}
+}
+
 /// routes that need `Sequence` (implemented by the crate for ValueType and OHLCV slices only)
 fn seq_check<M>(out: &mut Out, rng: &mut Rng, name: &str, params: M::Params, xs: &[M::Input])
 where
@@ -521,6 +560,9 @@ pub fn suite(out: &mut Out, seed: u64, thorough: bool, mode: &str) {
 				apply_check::<Momentum>(o, "momentum", len, &xs);
 				peek_check::<HighestIndex>(o, "hindex", len, &xs);
 				peek_check::<LowestIndex>(o, "lindex", len, &xs);
+			}
+			if mode == "routes" {
+				buffered_check(o, len, &xs);
 			}
 			let l2 = (l % 7 + 1) as PeriodType;
 			other!(mode, o, &mut r, TSI, "tsi", (l2, len), &xs, false, 1.0, seq);
